@@ -1,9 +1,281 @@
-//! machine -- placeholder; implemented by the owning property module.
+//! machine -- drive `sc62015_core::CoreRuntime` as a whole machine (ROM image + timers + keyboard + ON key)
+//! and report one observation record per step boundary.  Thin adapter: set-up, host events and
+//! observation only go through the crate's public API (`CoreRuntime::{new, load_rom, step, press_on_key,
+//! release_on_key}`, `TimerContext::new`, `KeyboardMatrix::{press_matrix_code, release_matrix_code,
+//! inject_matrix_event, handle_write}`, `MemoryImage::{write_internal_byte, read_internal_byte_silent,
+//! external_slice}`); the harness holds no interrupt semantics of its own.
+//!
+//! Verbs
+//!   machine.run      {"scenarios":[scenario,...]} -> {"ok":true,"results":[{"obs0","steps":[{"b"?,"a"}],"err"}]}
+//!   machine.new      scenario-without-events -> {"ok":true,"id":n}
+//!   machine.event    {"id","kind","arg"}     machine.step {"id","n"}    machine.observe {"id"}
+//!   machine.drop     {"id"}
+//!
+//! scenario = {"rom":[[addr,"hex"],...], "rom_base", "rom_size", "pc","s","u","ba","i","x","y","f",
+//!             "imr0","isr0","mti","sti","strobe":bool,"win_lo","win_hi","steps",
+//!             "events":[[step_index,"kind",arg],...]}
+//! The observation record layout equals vp_harness/c12_pymachine.py.
+use crate::util::{err, get_bool, get_str, get_u32, get_u64};
+use sc62015_core::llama::opcodes::RegName;
+use sc62015_core::{CoreRuntime, KeyboardMatrix, TimerContext};
 use serde_json::{json, Value};
+use std::collections::HashMap;
+
+const IMR: u32 = 0xFB;
+const ISR: u32 = 0xFC;
+
+pub struct Machine {
+    pub rt: CoreRuntime,
+    pub win_lo: u32,
+    pub win_hi: u32,
+}
 
 #[derive(Default)]
-pub struct State {}
+pub struct State {
+    next_id: u64,
+    machines: HashMap<u64, Machine>,
+}
 
-pub fn handle(verb: &str, _req: &Value, _st: &mut State) -> Value {
-    json!({"ok": false, "error": format!("machine.{verb} not implemented")})
+fn unhex(s: &str) -> Vec<u8> {
+    let b = s.as_bytes();
+    let mut out = Vec::with_capacity(b.len() / 2);
+    let nib = |c: u8| -> u8 {
+        match c {
+            b'0'..=b'9' => c - b'0',
+            b'a'..=b'f' => c - b'a' + 10,
+            b'A'..=b'F' => c - b'A' + 10,
+            _ => 0,
+        }
+    };
+    let mut i = 0;
+    while i + 1 < b.len() {
+        out.push((nib(b[i]) << 4) | nib(b[i + 1]));
+        i += 2;
+    }
+    out
+}
+
+fn hex(data: &[u8]) -> String {
+    let mut s = String::with_capacity(data.len() * 2);
+    for b in data {
+        s.push_str(&format!("{b:02x}"));
+    }
+    s
+}
+
+pub fn create(sc: &Value) -> Result<Machine, String> {
+    let mut rt = CoreRuntime::new();
+    let base = get_u32(sc, "rom_base", 0xC0000) as usize;
+    let size = get_u32(sc, "rom_size", 0x40000) as usize;
+    let mut rom = vec![0u8; size];
+    if let Some(segs) = sc.get("rom").and_then(|v| v.as_array()) {
+        for seg in segs {
+            let addr = seg.get(0).and_then(|v| v.as_u64()).unwrap_or(0) as usize;
+            let data = unhex(seg.get(1).and_then(|v| v.as_str()).unwrap_or(""));
+            if addr < base || addr + data.len() > base + size {
+                return Err(format!("rom segment {addr:#x} outside image"));
+            }
+            rom[addr - base..addr - base + data.len()].copy_from_slice(&data);
+        }
+    }
+    rt.load_rom(&rom, base);
+    rt.power_on_reset();
+    let mti = get_u32(sc, "mti", 0) as i32;
+    let sti = get_u32(sc, "sti", 0) as i32;
+    // Replace the timer *in place*: CoreRuntime's IMR/ISR hook holds a raw pointer into this Box.
+    *rt.timer = TimerContext::new(mti != 0 || sti != 0, mti, sti);
+    rt.state.set_pc(get_u32(sc, "pc", 0xC0100));
+    rt.state.set_reg(RegName::S, get_u32(sc, "s", 0xBFF00));
+    rt.state.set_reg(RegName::U, get_u32(sc, "u", 0xBFE00));
+    rt.state.set_reg(RegName::BA, get_u32(sc, "ba", 0));
+    rt.state.set_reg(RegName::I, get_u32(sc, "i", 0));
+    rt.state.set_reg(RegName::X, get_u32(sc, "x", 0));
+    rt.state.set_reg(RegName::Y, get_u32(sc, "y", 0));
+    rt.state.set_reg(RegName::F, get_u32(sc, "f", 0) & 0xFF);
+    if get_bool(sc, "strobe", true) {
+        if let Some(kb) = rt.keyboard.as_mut() {
+            kb.handle_write(0xF0, 0xFF, &mut rt.memory);
+            kb.handle_write(0xF1, 0x07, &mut rt.memory);
+        }
+    }
+    rt.memory
+        .write_internal_byte(ISR, get_u32(sc, "isr0", 0) as u8);
+    rt.memory
+        .write_internal_byte(IMR, get_u32(sc, "imr0", 0) as u8);
+    Ok(Machine {
+        rt,
+        win_lo: get_u32(sc, "win_lo", 0xBFF00 - 48),
+        win_hi: get_u32(sc, "win_hi", 0xBFF00),
+    })
+}
+
+impl Machine {
+    pub fn observe(&self) -> Value {
+        let rt = &self.rt;
+        let st = &rt.state;
+        let pw = if st.is_off() {
+            2
+        } else if st.is_halted() {
+            1
+        } else {
+            0
+        };
+        let ext = rt.memory.external_slice();
+        let lo = (self.win_lo as usize).min(ext.len());
+        let hi = (self.win_hi as usize).min(ext.len());
+        json!({
+            "pc": st.pc() & 0xFFFFF,
+            "s": st.get_reg(RegName::S),
+            "f": st.get_reg(RegName::F) & 0xFF,
+            "ba": st.get_reg(RegName::BA),
+            "i": st.get_reg(RegName::I),
+            "x": st.get_reg(RegName::X),
+            "y": st.get_reg(RegName::Y),
+            "u": st.get_reg(RegName::U),
+            "imr": rt.memory.read_internal_byte_silent(IMR).unwrap_or(0),
+            "isr": rt.memory.read_internal_byte_silent(ISR).unwrap_or(0),
+            "pw": pw,
+            "ic": rt.instruction_count(),
+            "cyc": rt.cycle_count(),
+            "irq": rt.timer.irq_total,
+            "inint": rt.timer.in_interrupt,
+            "pend": rt.timer.irq_pending,
+            "lat": rt.timer.key_irq_latched,
+            "nm": rt.timer.next_mti,
+            "ns": rt.timer.next_sti,
+            "src": rt.timer.last_irq_src.clone(),
+            "stk": hex(&ext[lo..hi]),
+        })
+    }
+
+    pub fn event(&mut self, kind: &str, arg: &Value) -> Result<(), String> {
+        match kind {
+            "on_down" => {
+                self.rt.press_on_key();
+                Ok(())
+            }
+            "on_up" => {
+                self.rt.release_on_key();
+                Ok(())
+            }
+            "key_down" | "key_up" | "key_inject" => {
+                let name = arg.as_str().unwrap_or("");
+                let code = KeyboardMatrix::matrix_code_for_key_name(name)
+                    .ok_or_else(|| format!("unknown key {name}"))?;
+                let kb_irq_enabled = self.rt.timer.kb_irq_enabled;
+                let rt = &mut self.rt;
+                let kb = rt.keyboard.as_mut().ok_or("no keyboard")?;
+                match kind {
+                    "key_down" => kb.press_matrix_code(code, &mut rt.memory),
+                    "key_up" => kb.release_matrix_code(code, &mut rt.memory),
+                    _ => {
+                        let _ = kb.inject_matrix_event(code, false, &mut rt.memory, kb_irq_enabled);
+                    }
+                }
+                Ok(())
+            }
+            _ => Err(format!("unknown event {kind}")),
+        }
+    }
+
+    pub fn step1(&mut self) -> Result<(), String> {
+        self.rt.step(1).map_err(|e| format!("{e}"))
+    }
+}
+
+fn run_one(sc: &Value) -> Value {
+    let mut m = match create(sc) {
+        Ok(m) => m,
+        Err(e) => return json!({"obs0": null, "steps": [], "err": format!("setup: {e}")}),
+    };
+    let steps = get_u64(sc, "steps", 0) as usize;
+    let mut evs: HashMap<usize, Vec<&Value>> = HashMap::new();
+    if let Some(list) = sc.get("events").and_then(|v| v.as_array()) {
+        for ev in list {
+            let k = ev.get(0).and_then(|v| v.as_u64()).unwrap_or(0) as usize;
+            evs.entry(k).or_default().push(ev);
+        }
+    }
+    let obs0 = m.observe();
+    let mut out: Vec<Value> = Vec::with_capacity(steps);
+    let mut error: Value = Value::Null;
+    for k in 0..steps {
+        let mut rec = serde_json::Map::new();
+        if let Some(list) = evs.get(&k) {
+            for ev in list {
+                let kind = ev.get(1).and_then(|v| v.as_str()).unwrap_or("");
+                let arg = ev.get(2).cloned().unwrap_or(Value::Null);
+                if let Err(e) = m.event(kind, &arg) {
+                    return json!({"obs0": obs0, "steps": out, "err": format!("setup: event {e}")});
+                }
+            }
+            rec.insert("b".to_string(), m.observe());
+        }
+        let r = std::panic::catch_unwind(std::panic::AssertUnwindSafe(|| m.step1()));
+        match r {
+            Ok(Ok(())) => {}
+            Ok(Err(e)) => {
+                error = json!(format!("step {k}: {e}"));
+                break;
+            }
+            Err(_) => {
+                error = json!(format!("step {k}: panic"));
+                break;
+            }
+        }
+        rec.insert("a".to_string(), m.observe());
+        out.push(Value::Object(rec));
+    }
+    json!({"obs0": obs0, "steps": out, "err": error})
+}
+
+pub fn handle(verb: &str, req: &Value, st: &mut State) -> Value {
+    match verb {
+        "run" => {
+            let results: Vec<Value> = req
+                .get("scenarios")
+                .and_then(|v| v.as_array())
+                .map(|a| a.iter().map(run_one).collect())
+                .unwrap_or_default();
+            json!({"ok": true, "results": results})
+        }
+        "new" => match create(req) {
+            Ok(m) => {
+                st.next_id += 1;
+                st.machines.insert(st.next_id, m);
+                json!({"ok": true, "id": st.next_id})
+            }
+            Err(e) => err(e),
+        },
+        "event" | "step" | "observe" | "drop" => {
+            let id = get_u64(req, "id", 0);
+            if verb == "drop" {
+                st.machines.remove(&id);
+                return json!({"ok": true});
+            }
+            let Some(m) = st.machines.get_mut(&id) else {
+                return err(format!("no machine {id}"));
+            };
+            match verb {
+                "event" => {
+                    let arg = req.get("arg").cloned().unwrap_or(Value::Null);
+                    match m.event(get_str(req, "kind", ""), &arg) {
+                        Ok(()) => json!({"ok": true, "obs": m.observe()}),
+                        Err(e) => err(e),
+                    }
+                }
+                "step" => {
+                    let n = get_u64(req, "n", 1);
+                    for k in 0..n {
+                        if let Err(e) = m.step1() {
+                            return json!({"ok": true, "err": format!("step {k}: {e}"), "obs": m.observe()});
+                        }
+                    }
+                    json!({"ok": true, "err": null, "obs": m.observe()})
+                }
+                _ => json!({"ok": true, "obs": m.observe()}),
+            }
+        }
+        _ => err(format!("machine.{verb} not implemented")),
+    }
 }
